@@ -36,7 +36,20 @@ Contract clauses evaluated after EVERY step:
   E2  an operation the ghost says must raise (ended transaction, closed connection, second begin, dead ctx) raises
   E3  an operation the ghost says is legal does not raise
 Only the first failing clause of a sequence is reported (every prefix is itself an enumerated sequence).
-Scope: see coverage.scope.  Bounded; not a proof.
+
+Scope (exact text in coverage.scope), two enumerations run by the same interpreter ``run_seq`` and judged by the same clauses:
+  (1) ALL operation sequences of length <= 5 (quick) / <= 6 (thorough) over the 20 operations OPS
+      (t = handle of the last successful begin(), n / m = handles of the last / last-but-one successful begin_nested());
+  (2) with-block programs, longer than (1) reaches: the block skeletons SKELETONS — ``with conn.begin():`` containing
+      ``with conn.begin_nested():``; an autobegun ``with conn.begin_nested():`` containing another; three levels; two inner
+      blocks one after the other — every block independently left normally or by exception (the exception being handled
+      in the enclosing block), with up to 2 / 1 (quick) or 3 / 2 (thorough) extra operations (two-block / three-block
+      skeletons) from EXTRAS (begin, begin_nested, ins, commit, rollback, close and commit / rollback / close on the t / n /
+      m handles) inserted at every combination of points inside the block bodies and after the outermost block.  This is
+      where an inner block exits by exception or after its transaction was already ended in-block, the enclosing
+      transaction is then ended in-block, and further operations are attempted inside the still-open outer block (which
+      the "ctx dead" rule says must raise).  ``n3.`` .. ``n9.`` address the 3rd .. 9th most recent begin_nested() handle.
+Bounded; not a proof.
 """
 import itertools
 import json
